@@ -80,6 +80,9 @@ def main(argv=None) -> int:
         tier, 4 if tier == "quick" else 16)
     workers = max(1, min(workers, total, os.cpu_count() or 1))
     budget = getattr(mod, "TIMEOUT", {}).get(tier, 600 if tier == "quick" else 3600)
+    # PVM_TIMEOUT_SCALE > 1: runs against a fresh scratch copy of porepy (no numba cache)
+    # or on a heavily loaded machine; a timeout is "inconclusive", never a verdict
+    budget *= float(os.environ.get("PVM_TIMEOUT_SCALE", "1"))
 
     tmp = Path(tempfile.mkdtemp(prefix=f"pvm_{prop}_"))
     procs = []
